@@ -119,7 +119,8 @@ fn protocol_path(game: &Game, ip: &std::net::IpAddr, port: Option<u16>, ts: Opti
                 PP::FFOW => json!({"FFOW": to_json(&gamedig::games::ffow::query_with_timeout(ip, Some(a.port()), ts)?)}),
                 PP::JC2M => json!({"JC2M": to_json(&gamedig::games::jc2m::query_with_timeout(ip, Some(a.port()), ts)?)}),
                 PP::Savage2 => json!({"Savage2": to_json(&gamedig::games::savage2::query_with_timeout(ip, Some(a.port()), ts)?)}),
-                PP::Mindustry => json!({"Mindustry": to_json(&gamedig::games::mindustry::query(ip, Some(a.port()), &ts)?)}),
+                // (Mindustry has a protocol-level function of its own, the one that honours the retry count)
+                PP::Mindustry => json!({"Mindustry": to_json(&gamedig::games::mindustry::protocol::query_with_retries(&a, &ts)?)}),
                 PP::Eco => json!(null),
             }
         }
